@@ -91,7 +91,8 @@ fn analysis_rule(r: &Value) -> Rule {
     let host = match r["host"][0].as_str().unwrap_or("none") { "static" => r["host"][1].as_str().unwrap().to_string(), "dyn" => "ab.example.com".to_string(), _ => "example.com".to_string() };
     let scheme = if s(r, "scheme").is_empty() { "http".to_string() } else { s(r, "scheme") };
     // some rules stop / reset the fold (the action trace must show it)
-    if id == "r2" { v["stop"] = json!(true); }
+    // (r2 is also a sampled rule: always in, unless the request carries the override "false")
+    if id == "r2" { v["stop"] = json!(true); v["source"]["sampling"] = json!(100); }
     // r1 acts on a backend 404 only, and its example says the backend answers 404
     let on404 = id == "r1";
     if on404 { v["source"]["response_status_codes"] = json!([404]); }
@@ -152,6 +153,13 @@ fn pipeline_of(fresh: &Router<Rule>, config: &RouterConfig, example: &Example) -
             let steps = TraceAction::from_trace_rules(&fresh.trace_request(&req), &req);
             let last = steps.last().map(|t| serde_json::to_value(t).unwrap()["action"].clone()).unwrap_or_else(|| serde_json::to_value(Action::default()).unwrap());
             let direct = serde_json::to_value(Action::from_routes_rule(routes.clone(), &req, None)).unwrap();
+            // the same comparison when the request samples the sampled rules OUT (a skipped stop / reset rule contributes nothing)
+            let mut req_out = req.clone();
+            req_out.sampling_override = Some(false);
+            let steps_out = TraceAction::from_trace_rules(&fresh.trace_request(&req_out), &req_out);
+            let last_out = steps_out.last().map(|t| serde_json::to_value(t).unwrap()["action"].clone()).unwrap_or_else(|| serde_json::to_value(Action::default()).unwrap());
+            let direct_out = serde_json::to_value(Action::from_routes_rule(fresh.match_request(&req_out), &req_out, None)).unwrap();
+            let sampled_out_equal = h(&last_out) == h(&direct_out);
             let mut a = Action::from_routes_rule(routes, &req, None);
             let s0 = a.get_status_code(0, None);
             let request_time = s0 != 0;
@@ -167,7 +175,7 @@ fn pipeline_of(fresh: &Router<Rule>, config: &RouterConfig, example: &Example) -
             let applied = sorted(a.get_applied_rule_ids().iter().cloned().collect());
             json!({"resp": {"status": fin, "headers": headers, "body": String::from_utf8_lossy(&body), "log": log}, "applied": applied,
                    "request_time_with_code": request_time && example.response_status_code.is_some(),
-                   "trace_action_equal": h(&last) == h(&direct), "ta_dbg": if h(&last) != h(&direct) { json!([last, direct]) } else { json!([]) }})
+                   "trace_action_equal": h(&last) == h(&direct) && sampled_out_equal, "ta_dbg": if h(&last) != h(&direct) { json!([last, direct]) } else { json!([]) }})
         }
     }
 }
